@@ -51,6 +51,40 @@ def run_fetch(raw, aborted, f, iso):
     return res
 
 
+def run_fetch_result(raw, aborted, f, iso, mode):
+    """the same response consumed through the real FetchResult API (what getone()/getmany() call), over a real
+    SubscriptionState holding the position: mode 0 = getone() until None, mode k>0 = getall(max_records=k) until
+    the result is exhausted.  Returns the delivered records and the position left in the subscription state."""
+    from aiokafka.consumer.fetcher import FetchResult
+    from aiokafka.consumer.subscription_state import SubscriptionState
+    res = {"out": [], "pos": None, "exc": None, "calls": 0}
+    try:
+        records = MemoryRecords(raw)
+        if not records.has_next():
+            res["pos"] = f
+            return res
+        sub = SubscriptionState()
+        sub.assign_from_user({TP})
+        asg = sub.subscription.assignment
+        asg.state_value(TP).seek(f)
+        ab = None if aborted is None else [tuple(e) for e in aborted]
+        pr = PartitionRecords(TP, records, ab, f, None, None, True, ISO[iso])
+        fr = FetchResult(TP, assignment=asg, partition_records=pr, backoff=0)
+        while fr.has_more() and res["calls"] < 10000:
+            res["calls"] += 1
+            if mode == 0:
+                m = fr.getone()
+                ms = [] if m is None else [m]
+            else:
+                ms = fr.getall(mode)
+            for rec in ms:
+                res["out"].append([rec.offset, hx(rec.key), hx(rec.value)])
+        res["pos"] = asg.state_value(TP).position
+    except Exception as e:  # noqa: BLE001
+        res["exc"] = type(e).__name__ + ": " + str(e)[:200]
+    return res
+
+
 class RecordingSet(set):
     def __init__(self):
         super().__init__()
@@ -88,7 +122,9 @@ def main():
         for c in lg.get("cases", []):
             resp = log.response(log.bound(c["iso"]), c["f"], c["k"])
             raw = log.response_bytes(resp, c.get("trunc", 0))
-            cases.append(run_fetch(raw, c["idx"], c["f"], c["iso"]))
+            r0 = run_fetch(raw, c["idx"], c["f"], c["iso"])
+            r0["via"] = {str(m): run_fetch_result(raw, c["idx"], c["f"], c["iso"], m) for m in (0, 1, 2)}
+            cases.append(r0)
         seqs = []
         for sq in lg.get("seqs", []):
             f = sq["f"]
@@ -104,6 +140,7 @@ def main():
                 else:
                     idx = None
                 r = run_fetch(raw, idx, f, iso)
+                r["via"] = {str(m): run_fetch_result(raw, idx, f, iso, m) for m in (0, 2)}
                 r.update({"f": f, "k": st["k"], "idx": idx})
                 steps.append(r)
                 if r["exc"] is not None or r["nfo"] is None:
@@ -122,4 +159,9 @@ def main():
     print(json.dumps(out))
 
 
-main()
+async def amain():
+    main()      # SubscriptionState wants a running loop; everything else is synchronous
+
+
+import asyncio  # noqa: E402
+asyncio.run(amain())
